@@ -396,8 +396,8 @@ func ParamNamed(fn *ssa.Function, name string) *ssa.Parameter {
 func Returns(fn *ssa.Function) []*ssa.Return {
 	var out []*ssa.Return
 	for _, b := range fn.Blocks {
-		if len(b.Instrs) == 0 {
-			continue
+		if len(b.Instrs) == 0 || b == fn.Recover {
+			continue // the synthetic recover block only re-returns the spilled results
 		}
 		if r, ok := b.Instrs[len(b.Instrs)-1].(*ssa.Return); ok {
 			out = append(out, r)
@@ -497,4 +497,37 @@ func ErrValueNonNil(v ssa.Value) (nonNil bool, known bool) {
 		}
 	}
 	return false, false
+}
+
+// ReturnValues resolves the values a return instruction yields. In functions
+// with defers go/ssa spills results to allocs: `return x` becomes
+// `*res = x; rundefers; return *res`. The stored values of the same block are
+// returned in that case.
+func ReturnValues(r *ssa.Return) []ssa.Value {
+	out := make([]ssa.Value, len(r.Results))
+	for i, v := range r.Results {
+		out[i] = v
+		ld, ok := v.(*ssa.UnOp)
+		if !ok || ld.Op != token.MUL {
+			continue
+		}
+		al, ok := ld.X.(*ssa.Alloc)
+		if !ok {
+			continue
+		}
+		// last store to the alloc before the load, in this block or (if none) a unique one elsewhere
+		var last ssa.Value
+		for _, in := range r.Block().Instrs {
+			if in == ssa.Instruction(ld) {
+				break
+			}
+			if st, ok := in.(*ssa.Store); ok && st.Addr == ssa.Value(al) {
+				last = st.Val
+			}
+		}
+		if last != nil {
+			out[i] = last
+		}
+	}
+	return out
 }
